@@ -814,7 +814,8 @@ class World:
             d = classify(name)
             d.update(n=name, c=self.cid[sha], vs=_vs(d['ver']))
             refs.append(d)
-        tags = [dict(n=n, c=self.cid.get(s, 0), ver=_tagver(n))
+        tags = [dict(n=n, c=self.cid.get(s, 0), ver=_tagver(n),
+                     arch=_ver(n) if re.match(r'^\d+(\.\d+){0,2}$', n) else [])   # archive tag of version n
                 for n, s in sorted(self.tags().items())]
         m = self.mock
         prs = []
